@@ -137,7 +137,10 @@ func c17model(c *Ctx) {
 				verdict, isUnk = fmt.Sprintf("member counts %v: not interpretable: %s", counts, why), true
 				break
 			}
-			if eq, ok := oEqual(res[1], oNil{}); !ok || !eq {
+			if eq, ok := oEqual(res[1], oNil{}); !ok {
+				verdict, isUnk = fmt.Sprintf("member counts %v: the error result is %s", counts, showVal(res[1])), true
+				break
+			} else if !eq {
 				verdict = fmt.Sprintf("member counts %v: Encode returns an error for a supported type", counts)
 				break
 			}
